@@ -1947,3 +1947,235 @@ pub fn c06(ctx: &mut Ctx, base: &str, reference: &str) -> Option<Vec<u8>> {
     ctx.nontrivial_cur();
     Some(a)
 }
+
+// =====================================================================  C04
+
+fn c04_feats(buffer: &str, route: &str, op: &Op, before: &[u8]) -> Feats {
+    let mut f: Feats = vec![
+        ("family", FAM.into()),
+        ("buffer", buffer.into()),
+        ("route", route.into()),
+        ("op", op.name().into()),
+        ("arg", match op {
+            Op::SetScheme(None) | Op::SetAuthority(None) | Op::SetQuery(None) | Op::SetFragment(None) | Op::SetUserinfo(None) | Op::SetPort(None) => "remove".into(),
+            Op::Push(s) | Op::SPush(s) => seg_class(s.as_bytes()).into(),
+            Op::SetPath(p) | Op::SAppend(p) => format!("{}:{}", path_form(p.as_bytes()), first_seg_class(p.as_bytes())),
+            _ => "set".into(),
+        }),
+    ];
+    f.extend(state_feats(before));
+    f
+}
+
+/// Tripwire consumers: give a broken `str` invariant a chance to become detectable.
+fn c04_tripwires(text: &[u8]) -> u64 {
+    use std::hash::{Hash, Hasher};
+    let mut acc = 0u64;
+    if let Ok(s) = std::str::from_utf8(text) {
+        acc += s.chars().count() as u64;
+        acc += s.to_string().len() as u64;
+        acc += format!("{:?}", s).len() as u64;
+        let mut h = std::collections::hash_map::DefaultHasher::new();
+        s.hash(&mut h);
+        acc ^= h.finish();
+    }
+    acc
+}
+
+/// Invariant at the boundary after one call on a reference buffer.
+fn c04_check_ref(ctx: &mut Ctx, feats: &dyn Fn() -> Feats, text: &[u8], full: bool, what: &str) -> bool {
+    let prod = if full { Prod::Ri } else { Prod::RiRef };
+    let Ok(t) = std::str::from_utf8(text) else {
+        ctx.fail("C04.utf8", feats(), format!("{}: the buffer is not well-formed UTF-8: {}", what, show(text)));
+        return false;
+    };
+    if !valid(prod, text) {
+        ctx.fail("C04.reparse", feats(), format!("{}: the buffer {} is not a valid {} (RFC model)", what, show(text), if full { "URI/IRI" } else { "reference" }));
+        return false;
+    }
+    let lib_ok = if full { Ri::new(t).is_ok() } else { RiRef::new(t).is_ok() };
+    if !lib_ok {
+        ctx.fail("C04.reparse", feats(), format!("{}: the library's own checked constructor rejects the buffer {}", what, show(text)));
+        return false;
+    }
+    true
+}
+
+/// Every accessor of C02/C03/C12 on the (valid) result, under a guard.
+fn c04_accessors(ctx: &mut Ctx, feats: &dyn Fn() -> Feats, text: &str) {
+    let v0 = ctx.violation_count;
+    let r = crate::ctx::guard(std::panic::AssertUnwindSafe(|| {
+        let _ = c04_tripwires(text.as_bytes());
+    }));
+    if let Err(m) = r { ctx.fail("C04.accessor-panic", feats(), format!("a consumer panicked on {}: {}", show(text.as_bytes()), m)); }
+    c02(ctx, text);
+    if let Some(a) = model::split(text.as_bytes()).authority {
+        if let Ok(at) = std::str::from_utf8(a) { c03(ctx, at); }
+    }
+    if let Ok(pt) = std::str::from_utf8(model::split(text.as_bytes()).path) {
+        c12_queries(ctx, pt);
+        c12_interleave(ctx, pt, 0xA5A5_5A5A_3C3C_C3C3);
+    }
+    let _ = v0;
+}
+
+/// kind: 0 = RiRefBuf, 1 = RiBuf, 2 = PathBuf.  route: how the initial buffer is obtained.
+pub fn c04_history(ctx: &mut Ctx, initial: &str, ops_text: &str, kind: u64, route: u64) {
+    let ops: Vec<Op> = parse_ops(ops_text).into_iter().filter(|o| o.args_valid()).collect();
+    if ops.is_empty() { return; }
+    ctx.stratum(&format!("history-len:{}", ops.len().min(4)));
+    match kind {
+        0 => {
+            let (mut buf, rname) = match route {
+                1 => (RiRefBuf::default(), "default"),
+                2 => match RiRefBuf::new(own(initial)) { Ok(b) => (b.clone().to_owned(), "cloned"), Err(_) => return },
+                3 => match RiBuf::new(own(initial)) { Ok(b) => (RiRefBuf::from(b), "converted-from-full"), Err(_) => return },
+                _ => match RiRefBuf::new(own(initial)) { Ok(b) => (b, "parsed"), Err(_) => return },
+            };
+            ctx.stratum("buffer:RiRefBuf");
+            ctx.stratum(&format!("route:{}", rname));
+            for (i, op) in ops.iter().enumerate() {
+                let before = buf.as_bytes().to_vec();
+                let f = || c04_feats("RiRefBuf", rname, op, &before);
+                ctx.call(op.name());
+                ctx.stratum(&format!("op:{}", op.name()));
+                let pre_state = state_hash(&before);
+                if let Err(m) = crate::ctx::guard(|| apply_ref_op(&mut buf, op)) {
+                    ctx.fail("C04.panic", f(), format!("step {}: {:?} on {} panicked: {} (initial {}, history {:?})", i + 1, op, show(&before), m, show(b(initial)), ops_text));
+                    return;
+                }
+                let after = buf.as_bytes().to_vec();
+                if !c04_check_ref(ctx, &f, &after, false, &format!("step {}: {:?} on {} (initial {}, history {:?})", i + 1, op, show(&before), show(b(initial)), ops_text)) { return; }
+                let t = String::from_utf8(after.clone()).unwrap();
+                c04_accessors(ctx, &f, &t);
+                ctx.set_insert("states", state_hash(&after));
+                ctx.set_insert("transitions", crate::rng::mix(pre_state ^ crate::rng::hash_bytes(format!("{}|{:?}", op.name(), f().get(4)).as_bytes())));
+            }
+        }
+        1 => {
+            let (mut buf, rname) = match route {
+                1 => match Scheme::new(model::split(b(initial)).scheme.unwrap_or(b"s")) { Ok(s) => (RiBuf::from_scheme(s.to_owned()), "from_scheme"), Err(_) => return },
+                2 => match RiRefBuf::new(own(initial)) { Ok(r) => match r.try_into_full() { Ok(f) => (f, "converted-from-reference"), Err(_) => return }, Err(_) => return },
+                _ => match RiBuf::new(own(initial)) { Ok(b) => (b, "parsed"), Err(_) => return },
+            };
+            ctx.stratum("buffer:RiBuf");
+            ctx.stratum(&format!("route:{}", rname));
+            for (i, op) in ops.iter().enumerate() {
+                if matches!(op, Op::SetScheme(None) | Op::Resolve(_)) { continue; }
+                let before = buf.as_bytes().to_vec();
+                let f = || c04_feats("RiBuf", rname, op, &before);
+                ctx.call(op.name());
+                if let Err(m) = crate::ctx::guard(|| { apply_full_op(&mut buf, op); }) {
+                    ctx.fail("C04.panic", f(), format!("step {}: RiBuf {:?} on {} panicked: {} (initial {}, history {:?})", i + 1, op, show(&before), m, show(b(initial)), ops_text));
+                    return;
+                }
+                let after = buf.as_bytes().to_vec();
+                if !c04_check_ref(ctx, &f, &after, true, &format!("step {}: RiBuf {:?} on {} (initial {}, history {:?})", i + 1, op, show(&before), show(b(initial)), ops_text)) { return; }
+                let t = String::from_utf8(after).unwrap();
+                c04_accessors(ctx, &f, &t);
+            }
+        }
+        _ => {
+            let (mut pb, rname) = match route {
+                1 => (PathBuf::default(), "default"),
+                _ => match PathBuf::new(own(initial)) { Ok(p) => (p, "parsed"), Err(_) => return },
+            };
+            ctx.stratum("buffer:PathBuf");
+            ctx.stratum(&format!("route:{}", rname));
+            for (i, op) in ops.iter().enumerate() {
+                if !op.is_path_op() { continue; }
+                let before = pb.as_bytes().to_vec();
+                let f = || c04_feats("PathBuf", rname, op, &before);
+                ctx.call(op.name());
+                if let Err(m) = crate::ctx::guard(|| apply_pathbuf_op(&mut pb, op)) {
+                    ctx.fail("C04.panic", f(), format!("step {}: PathBuf {:?} on {} panicked: {} (initial {}, history {:?})", i + 1, op, show(&before), m, show(b(initial)), ops_text));
+                    return;
+                }
+                let after = pb.as_bytes().to_vec();
+                let what = format!("step {}: PathBuf {:?} on {} (initial {}, history {:?})", i + 1, op, show(&before), show(b(initial)), ops_text);
+                let Ok(t) = std::str::from_utf8(&after) else { ctx.fail("C04.utf8", f(), format!("{}: not UTF-8: {}", what, show(&after))); return; };
+                if !valid(Prod::Path, &after) || Path::new(t).is_err() {
+                    ctx.fail("C04.reparse", f(), format!("{}: the buffer {} is not a valid path", what, show(&after)));
+                    return;
+                }
+                let _ = c04_tripwires(&after);
+                c12_queries(ctx, t);
+                c12_interleave(ctx, t, 0x0F0F_F0F0_1234_8421);
+            }
+        }
+    }
+    ctx.nontrivial_cur();
+}
+
+// =====================================================================  C15
+
+fn c15_feats(a: &[u8], bb: &[u8]) -> Feats {
+    let x = model::split(a);
+    let y = model::split(bb);
+    let (xa, xs) = model::segments(x.path);
+    let (ya, ys) = model::segments(y.path);
+    let xn = model::norm_seq(xa, &xs);
+    let ydir: Vec<&[u8]> = if ys.is_empty() { vec![] } else { ys[..ys.len() - 1].to_vec() };
+    let yn_ = model::norm_seq(ya, &ydir);
+    let common = xn.iter().zip(yn_.iter()).take_while(|(p, q)| model::eq_component(p, q)).count();
+    let relation = if xa != ya { "absoluteness-differs" } else if common == yn_.len() && xn.len() > common { "below-base-dir" } else if common == yn_.len() { "is-base-dir" } else if common == xn.len() { "above-base-dir" } else { "beside" };
+    let dotty = |s: &[&[u8]]| s.iter().any(|t| *t == b"." || *t == b".." || t.is_empty());
+    vec![
+        ("family", FAM.into()),
+        ("same_scheme", yn(x.scheme == y.scheme)),
+        ("a_authority", yn(x.authority.is_some())),
+        ("b_authority", yn(y.authority.is_some())),
+        ("same_authority", yn(match (x.authority, y.authority) { (Some(p), Some(q)) => model::eq_authority(p, q), (None, None) => true, _ => false })),
+        ("relation", relation.into()),
+        ("a_path", path_form(x.path).into()),
+        ("b_path", path_form(y.path).into()),
+        ("a_query", yn(x.query.is_some())),
+        ("a_fragment", yn(x.fragment.is_some())),
+        ("b_query", yn(y.query.is_some())),
+        ("dot_or_empty_segments", yn(dotty(&xs) || dotty(&ys))),
+        ("a_trailing_slash", yn(x.path.len() > 1 && x.path.ends_with(b"/"))),
+        // sequences that no dot-free text spells: a lone empty segment, or a relative sequence ending in '..'
+        // (RFC 3986 5.2.4 always leaves a '/' after a final '..')
+        ("a_norm_unspellable", yn((xn.len() == 1 && xn[0].is_empty()) || xn.last().map_or(false, |l| *l == b".."))),
+    ]
+}
+
+pub fn c15(ctx: &mut Ctx, a: &str, bb: &str) {
+    let (Ok(x), Ok(y)) = (Ri::new(a), Ri::new(bb)) else { ctx.stratum("skipped:rejected-by-library"); return; };
+    let f = || c15_feats(b(a), b(bb));
+    for (k, v) in f() { if k == "relation" || k == "same_scheme" || k == "same_authority" { ctx.stratum(&format!("{}:{}", k, v)); } }
+    ctx.call("relative_to");
+    let yr: &RiRef = y.as_ref();
+    let rel = match crate::ctx::guard(|| x.relative_to(yr).as_bytes().to_vec()) {
+        Ok(r) => r,
+        Err(m) => { ctx.fail("C15.panic", f(), format!("{}.relative_to({}) panicked: {}", show(b(a)), show(b(bb)), m)); return; }
+    };
+    let Ok(rt) = std::str::from_utf8(&rel) else { ctx.fail("C15.valid", f(), format!("{}.relative_to({}) is not UTF-8", show(b(a)), show(b(bb)))); return; };
+    if !valid(Prod::RiRef, &rel) || RiRef::new(rt).is_err() {
+        ctx.fail("C15.valid", f(), format!("{}.relative_to({}) = {} is not a valid reference", show(b(a)), show(b(bb)), show(&rel)));
+        return;
+    }
+    // the reference-typed entry point must agree
+    let xr: &RiRef = x.as_ref();
+    match crate::ctx::guard(|| xr.relative_to(yr).as_bytes().to_vec()) {
+        Ok(r2) => if r2 != rel { ctx.fail("C15.entry-points", f(), format!("Ri::relative_to gives {}, RiRef::relative_to gives {}", show(&rel), show(&r2))); },
+        Err(m) => ctx.fail("C15.panic", f(), format!("RiRef::relative_to panicked: {}", m)),
+    }
+    let r = RiRef::new(rt).unwrap();
+    // does resolving the produced reference run into the known C06 finding (an empty segment met on an empty output)?
+    let tm = model::resolve(b(bb), &rel);
+    let hits_c06 = tm.branch == "relative-path" && tm.empty_on_empty;
+    let f = || { let mut v = c15_feats(b(a), b(bb)); v.push(("resolution_hits_c06_finding", yn(hits_c06))); v };
+    ctx.call("resolved");
+    match crate::ctx::guard(|| { let z = r.resolved(y); (z.as_bytes().to_vec(), *z == *x) }) {
+        Err(m) => ctx.fail("C15.panic", f(), format!("resolving {} against {} panicked: {}", show(&rel), show(b(bb)), m)),
+        Ok((z, lib_eq)) => {
+            let model_eq = model::eq_ref(&z, b(a));
+            if !model_eq || !lib_eq {
+                ctx.fail("C15.roundtrip", f(), format!("a = {}, b = {}: a.relative_to(b) = {} which resolves against b to {} (model ==: {}, library ==: {})", show(b(a)), show(b(bb)), show(&rel), show(&z), model_eq, lib_eq));
+            }
+        }
+    }
+    if x.as_bytes() != b(a) || y.as_bytes() != b(bb) { ctx.fail("C15.unchanged", f(), "an argument was modified".into()); }
+    ctx.nontrivial_cur();
+}
